@@ -56,6 +56,9 @@ OWN2 = '02aabbccdd02'
 STATIONS = ['020000000011', '020000000012', '020000000013', '030000000011', '020000000111']
 # near-collision pool: pairs differing in exactly one byte position
 NEAR = [OWN, '03aabbccdd01', '02abbbccdd01', '02aabcccdd01', '02aabbcddd01', '02aabbccde01', '02aabbccdd00', '000000000000', BCAST]
+# twins with the high bit set in every byte: equal but for the first byte / the second / the first two / the last (what a key
+# folded into an integer, a hash or a prefix / suffix comparison confuses)
+HIGH = ['f2e2d3c4b5a6', '02e2d3c4b5a6', 'f212d3c4b5a6', '3cd9d3c4b5a6', 'f2e2d3c4b5a7', 'f2e2d3c4b526']
 U16 = [0, 1, 0x00ff, 0x0100, 0x7fff, 0x8000, 0xffff]
 # generations: zero, small, byte-reversed pairs, byte palindromes — drawn from a small pool so that they repeat and alternate within one history
 GENS = [0, 1, 2, 0x0100, 0x0001, 0x1234, 0x3412, 0x4242, 0x0101, 0xffff, 0x00ff, 0xff00]
@@ -82,7 +85,7 @@ def glob_line(host='6d79686f7374', icon='none', fname='none', hwid='-', hostrep=
 
 
 def rand_mac(rng):
-    return rng.choice(STATIONS + NEAR) if rng.random() < 0.7 else ''.join('%02x' % rng.randrange(256) for _ in range(6))
+    return rng.choice(STATIONS + NEAR + HIGH) if rng.random() < 0.7 else ''.join('%02x' % rng.randrange(256) for _ in range(6))
 
 
 def rand_u16(rng):
@@ -192,7 +195,7 @@ def universal(rng, nif=None, length=None, with_glob_changes=True):
         ops.append('glob sendok=len')           # a successful transmit answers with the byte count (the contract: negative = refused)
     if rng.random() < 0.4:
         ops.append('glob emptyrep=block')       # an empty icon / name comes as a zero-length block, not as NULL
-    pool = STATIONS[:4]
+    pool = STATIONS[:4] if rng.random() < 0.65 else HIGH[:4]      # the stations of this history: ordinary ones, or twins differing in their first bytes only
     alloc = list(mtus)             # the receive buffers keep the size of the MTU at creation; `mtus` is the current MTU
     mapper = [None] * nif          # who the generator believes is active (only a bias for choosing senders)
     seen_src = [[] for _ in range(nif)]
